@@ -272,6 +272,47 @@ func c26(r *sim.R) *sim.Violation {
 				return v
 			}
 		}
+		// queries that start at a day boundary inside the data: every row must be found under the
+		// day its timestamp belongs to (a block filed under a neighbouring day is visible to a
+		// full-range query but not to one that starts or ends at the boundary)
+		bounds := map[int64]bool{}
+		for _, kk := range order {
+			bounds[model.DayOf(kk.ts)] = true
+		}
+		var bs []int64
+		for b := range bounds {
+			bs = append(bs, b)
+		}
+		sort.Slice(bs, func(i, j int) bool { return bs[i] < bs[j] })
+		if len(bs) > 3 {
+			bs = bs[len(bs)-3:]
+		}
+		for _, b := range bs {
+			if imported == 0 {
+				break
+			}
+			for _, rng := range [][2]int64{{b, 4102444800}, {1, b - 1}} {
+				var w []string
+				for _, kk := range order {
+					if kk.ts >= rng[0] && kk.ts <= rng[1] {
+						f := exp[kk]
+						w = append(w, fmt.Sprintf("%d|%s|%s|%s|%d|%d|br=%d bs=%d pr=%d ps=%d", kk.ts, kk.iface, model.IPString(f.Sip), model.IPString(f.Dip), f.Dport, f.Proto, f.C.BR, f.C.BS, f.C.PR, f.C.PS))
+					}
+				}
+				if len(w) == 0 {
+					continue
+				}
+				res, err := dbcheck.Query(context.Background(), destR, dbcheck.FullArgs("any", rng[0], rng[1]))
+				var g []string
+				if err == nil {
+					g = dbcheck.RowsCanon(res.Rows)
+				}
+				if err != nil || dbcheck.DiffRows(w, g) != "" {
+					return r.Report(&sim.Violation{Clause: "rows-not-found-under-their-day", Signature: sig,
+						Detail: fmt.Sprintf("query over [%d,%d] (a day boundary of the imported data): err=%v\n%s", rng[0], rng[1], err, dbcheck.DiffRows(w, g))})
+				}
+			}
+		}
 		if pass == 0 {
 			firstCanon = got
 		} else if dbcheck.DiffRows(firstCanon, got) != "" {
